@@ -99,34 +99,69 @@ def run(rep, tier, seed):
     classes = {}
     distinct_fail = {}
     batch = 4000
+    budget = {"hangs": 24}          # each hang costs a deadline; with this many found the verdict is settled
+    skipped = 0
+
+    def run_batch(cid, part):
+        """outcomes of the texts of one batch; a hang inside the batch costs one per-text deadline, the rest of
+        the batch is resumed after it"""
+        outs = []
+        rest = part
+        k = 0
+        while rest:
+            if budget["hangs"] <= 0:
+                return outs + ["S"] * len(rest)
+            c = {"id": "%s~%d" % (cid, k), "kind": "front", "srcs": rest}
+            r = core.run_cases([c], deadline_ms=3000, shards=1)[c["id"]]
+            k += 1
+            if r.get("how") == "ok":
+                return outs + r["outs"]
+            budget["hangs"] -= 1
+            if r.get("how") == "timeout" and "done_outs" in r:
+                done = r["done_outs"]
+                outs += done + ["Htimeout"]
+                rest = rest[len(done) + 1:]
+            else:
+                # the process died (abort, stack overflow) without saying where: bisect by halves
+                if len(rest) == 1:
+                    outs.append("H" + str(r.get("how")))
+                    rest = []
+                else:
+                    half = len(rest) // 2
+                    outs += run_batch("%s<%d" % (cid, k), rest[:half])
+                    rest = rest[half:]
+        return outs
+
     for fam, gen in families:
         cases = []
         keep = []
         for n, part in enumerate(chunks(gen, batch)):
             cases.append({"id": "%s#%d" % (fam, n), "kind": "front", "srcs": part})
             keep.append(part)
-        res = core.run_cases(cases, deadline_ms=120000, shards=min(core.NCPU, max(1, len(cases))))
+        res = core.run_cases(cases, deadline_ms=3000, shards=min(core.NCPU, max(1, len(cases))))
         for c, part in zip(cases, keep):
             r = res[c["id"]]
-            if r.get("how") != "ok":
-                # a hang or abort inside the batch: re-run its texts one by one to find it
-                singles = [{"id": "%s/%d" % (c["id"], i), "kind": "front", "srcs": [s]} for i, s in enumerate(part)]
-                sres = core.run_cases(singles, deadline_ms=10000, shards=core.NCPU)
-                outs = []
-                for sc in singles:
-                    sr = sres[sc["id"]]
-                    outs.append(sr["outs"][0] if sr.get("how") == "ok" else "H" + str(sr.get("how")))
-            else:
+            if r.get("how") == "ok":
                 outs = r["outs"]
+            elif r.get("how") == "timeout" and "done_outs" in r:
+                budget["hangs"] -= 1
+                done = r["done_outs"]
+                outs = done + ["Htimeout"] + run_batch(c["id"], part[len(done) + 1:])
+            else:
+                outs = run_batch(c["id"], part)
             for s, o in zip(part, outs):
-                total += 1
                 k = o[0]
+                if k == "S":
+                    skipped += 1
+                    continue
+                total += 1
                 classes[k] = classes.get(k, 0) + 1
                 if k in ("P", "H"):
                     loc = o.split("|")[1] if "|" in o else o
                     sig = "front-end %s %s" % ("panic" if k == "P" else "hang/abort", loc)
                     if sig not in distinct_fail or len(s) < len(distinct_fail[sig]):
                         distinct_fail[sig] = s
+    rep.notes["texts_skipped_after_hang_budget"] = skipped
     for sig, s in distinct_fail.items():
         rep.disagree(sig, {"shortest_witness": s, "witness_repr": repr(s)})
     rep.cov["evaluations"] += total
@@ -157,7 +192,7 @@ def end_to_end(rep, rnd, tier, progs_src, special):
              and "read" not in t]
     jobs = []
     for t in texts:
-        jobs.append((["-c", "puts(\"RAN-PROBE\");\n" + t], b"", {"timeout": 20}))
+        jobs.append((["-c", "puts(\"RAN-PROBE\");\n" + t], b"", {"timeout": 8}))
     results = e2e.run_many(jobs)
     recs = []
     for i, (t, r) in enumerate(zip(texts, results)):
